@@ -28,7 +28,7 @@ structure IP where
   v6 : Bool
   val : Nat
   str : Bytes := []
-  deriving Repr
+  deriving Repr, DecidableEq
 
 /-- `netip.Addr` equality (no zones; an IPv4-mapped IPv6 address differs from the IPv4 one). -/
 def IP.same (a b : IP) : Bool := a.v6 == b.v6 && a.val == b.val
@@ -147,7 +147,7 @@ inductive SvcParam where
   | hint4 (ips : List IP)
   | hint6 (ips : List IP)
   | other (key : Nat)
-  deriving Repr
+  deriving Repr, DecidableEq
 
 inductive RData where
   | a (ip : Option IP)
@@ -156,13 +156,13 @@ inductive RData where
   | https (prio : Nat) (target : Bytes) (params : List SvcParam)
   | soa (mbox : Bytes)
   | other (typ : Nat) (data : Bytes)
-  deriving Repr
+  deriving Repr, DecidableEq
 
 structure RR where
   name : Bytes
   ttl : Nat
   data : RData
-  deriving Repr
+  deriving Repr, DecidableEq
 
 structure Msg where
   rcode : Nat
@@ -170,13 +170,13 @@ structure Msg where
   qtype : Nat
   answer : List RR := []
   ns : List RR := []
-  deriving Repr
+  deriving Repr, DecidableEq
 
 structure Query where
   /-- as sent by the client: FQDN, any letter case -/
   name : Bytes
   qtype : Nat
-  deriving Repr
+  deriving Repr, DecidableEq
 
 def rcSuccess : Nat := 0
 def rcNXDomain : Nat := 3
